@@ -107,3 +107,93 @@ Fixpoint trace_ok_from (pre : list titem) (tr : list titem) : bool :=
   | t :: rest => step_ok pre t && trace_ok_from (pre ++ [t]) rest
   end.
 Definition trace_ok (tr : list titem) : bool := trace_ok_from [] tr.
+
+(* ---------- the counting clauses for histories with overlapping calls ----------
+   A group is a set of calls that overlapped (one call for a sequential step) with the
+   underlying calls they caused, in the order these were entered.  Calls are given with the name
+   they act on.  Checked, per name, over the whole history:
+     - at most one underlying store of a name is live at a time: an underlying OpenDB(name) only
+       when no store of the name is live, an underlying Close only of the live store
+       (same store for all while open; closed exactly once);
+     - at every quiescent point (end of a group) the name has a live store iff its balance
+       (successful opens - successful closes) is positive (closed at the last close, not before);
+     - underlying drops of the name's stores <= OpenDB(name) calls made so far. *)
+Inductive ccall := KOpen (name : N) (r : cres) | KClose (name : N) (r : cres) | KDrop (name : N) (r : cres).
+Definition cgroup : Type := list ccall * list uevent.
+
+Record cview := mkV {
+  v_live : list (N * N);      (* name -> live store *)
+  v_names : list (N * N);     (* store -> name (every store ever opened) *)
+  v_bal : list (N * N);       (* name -> successful opens, successful closes are subtracted *)
+  v_calls : list (N * N);     (* name -> OpenDB calls *)
+  v_drops : list (N * N) }.   (* name -> underlying drops *)
+
+Definition getn (k : N) (m : list (N * N)) : N := match alookup k m with Some v => v | None => 0 end.
+
+Definition ev_apply (v : cview) (e : uevent) : option cview :=
+  match e with
+  | UOpen n u =>
+      match alookup n (v_live v), alookup u (v_names v) with
+      | None, None => Some (mkV (aset n u (v_live v)) (aset u n (v_names v)) (v_bal v) (v_calls v) (v_drops v))
+      | _, _ => None
+      end
+  | UOpenFail _ => Some v
+  | UClose u =>
+      match alookup u (v_names v) with
+      | Some n => match alookup n (v_live v) with
+                  | Some u' => if u' =? u then Some (mkV (adel n (v_live v)) (v_names v) (v_bal v) (v_calls v) (v_drops v)) else None
+                  | None => None
+                  end
+      | None => None
+      end
+  | UDrop u =>
+      match alookup u (v_names v) with
+      | Some n => Some (mkV (v_live v) (v_names v) (v_bal v) (v_calls v) (aset n (getn n (v_drops v) + 1) (v_drops v)))
+      | None => None
+      end
+  end.
+
+Definition call_apply (v : cview) (c : ccall) : option cview :=
+  match c with
+  | KOpen n r =>
+      match r with
+      | RPanic | RDead | RNoHandle | ROk | ROverClose => None
+      | RHandle _ => Some (mkV (v_live v) (v_names v) (aset n (getn n (v_bal v) + 1) (v_bal v)) (aset n (getn n (v_calls v) + 1) (v_calls v)) (v_drops v))
+      | ROpenErr => Some (mkV (v_live v) (v_names v) (v_bal v) (aset n (getn n (v_calls v) + 1) (v_calls v)) (v_drops v))
+      end
+  | KClose n r =>
+      match r with
+      | ROk => if getn n (v_bal v) =? 0 then None
+               else Some (mkV (v_live v) (v_names v) (aset n (getn n (v_bal v) - 1) (v_bal v)) (v_calls v) (v_drops v))
+      | ROverClose | RNoHandle => Some v
+      | _ => None
+      end
+  | KDrop n r => match r with ROk | RNoHandle => Some v | _ => None end
+  end.
+
+Fixpoint fold_opt {A B} (f : A -> B -> option A) (a : A) (l : list B) : option A :=
+  match l with
+  | [] => Some a
+  | x :: r => match f a x with Some a' => fold_opt f a' r | None => None end
+  end.
+
+Definition call_name (c : ccall) : N := match c with KOpen n _ | KClose n _ | KDrop n _ => n end.
+
+(* quiescent point: live iff balance > 0, drops <= open calls, for the names touched *)
+Definition quiescent_ok (v : cview) (names : list N) : bool :=
+  forallb (fun n =>
+    (match alookup n (v_live v) with Some _ => 0 <? getn n (v_bal v) | None => getn n (v_bal v) =? 0 end)
+    && (getn n (v_drops v) <=? getn n (v_calls v))) names.
+
+Definition group_apply (v : cview) (g : cgroup) : option cview :=
+  match fold_opt ev_apply v (snd g) with
+  | Some v1 =>
+      match fold_opt call_apply v1 (fst g) with
+      | Some v2 => if quiescent_ok v2 (map call_name (fst g)) then Some v2 else None
+      | None => None
+      end
+  | None => None
+  end.
+
+Definition conc_ok (gs : list cgroup) : bool :=
+  match fold_opt group_apply (mkV [] [] [] [] []) gs with Some _ => true | None => false end.
